@@ -10,7 +10,7 @@ SUB, JUDGE = "stream-out", "StreamOutTrace"
 
 
 def model(ctx):
-    cfg = ("SPECIFICATION Spec\nCONSTANTS\n  Producers = {1, 2, 3}\n  PerProducer = %d\n  TwoWriters = %s\n"
+    cfg = ("SPECIFICATION Spec\nCONSTANTS\n  Producers = {1, 2, 3}\n  PerProducer = %d\n  TwoWriters = %s\n  WriteFails = FALSE\n"
            "INVARIANTS OnceOnly Submitted ProducerOrder\n%s")
     n = 3 if ctx.quick() else 4
     r = ctx.tlc("StreamOut", cfg % (n, "FALSE", "PROPERTIES AllWritten\n"), workers=4, label="StreamOut[1 writer]")
@@ -19,7 +19,11 @@ def model(ctx):
     r2 = ctx.tlc("StreamOut", cfg % (2, "TRUE", ""), workers=1, label="StreamOut[2 writers]")
     if r2["violation"] != "ProducerOrder":
         raise Infra("sensitivity: two writers were expected to violate ProducerOrder, got %r" % r2["violation"])
-    ctx.extra["model"] = dict(states=r["distinct"], producers=3, per_producer=n, two_writers_refuted=True)
+    r3 = ctx.tlc("StreamOut", cfg.replace("WriteFails = FALSE", "WriteFails = TRUE").replace("ProducerOrder", "ProducerOrder NothingAfterPartial") % (n, "FALSE", ""),
+                 workers=4, label="StreamOut[write failure]")
+    if r3["violation"]:
+        raise Infra("StreamOut.tla with write failures violates %s" % r3["violation"])
+    ctx.extra["model"] = dict(write_failure_states=r3["distinct"], states=r["distinct"], producers=3, per_producer=n, two_writers_refuted=True)
 
 
 def run(ctx):
@@ -39,6 +43,10 @@ def run(ctx):
             scen.append(dict(id="out-p%d-s%d" % (P, j), k="out", producers=P, per=per, sizes=sizes,
                              writeDelayUs=rnd.choice([0, 0, 50, 300]), seed=ctx.seed * 100 + len(scen),
                              maxprocs=rnd.choice([0, 0, 2])))
+    # a write that times out after the peer accepted part of a frame: what reaches the wire afterwards must still be whole frames
+    for j, (P, fa) in enumerate([(1, 1500), (3, 700)] if q else [(1, 1500), (3, 700), (1, 5), (2, 3000), (8, 2211), (3, 64)]):
+        scen.append(dict(id="out-fault-p%d-%d" % (P, fa), k="out", producers=P, per=12, sizes=[300, 403, 1000, 64, 8, 2049],
+                         writeDelayUs=0, seed=ctx.seed * 100 + 50 + j, maxprocs=0, writeFaultAt=fa))
     sp = os.path.join(ctx.scratch, "scen-out.ndjson")
     vlib.write_ndjson(sp, scen)
     env, rdir = vlib.race_env(ctx, "c11")
@@ -79,7 +87,7 @@ def run(ctx):
         "messages over all interleavings: each message on the wire at most once, only after submission, per-producer order, all "
         "written eventually; a two-writer variant is refuted. On the code, %s producer goroutines submit xid-tagged real messages "
         "(8 B - 65535 B, mixed kinds) through MessageStream.Outbound to a recording connection with optional write delay, under the race "
-        "detector; the event log (submit begin/end, every Write) is validated by TLC against StreamOutTrace: the byte stream is re-framed "
+        "detector (incl. executions in which a Write accepts part of a frame and times out); the event log (submit begin/end, every Write) is validated by TLC against StreamOutTrace: the byte stream is re-framed "
         "by header length and every frame must equal a submitted message's encoding, once, after its submission, in its producer's order."
         % (ctx.extra["model"]["per_producer"], plist),
         viol, [], ["interleavings of the real goroutines are stress-sampled", "write errors are not injected (the writer calls log.Fatalf)"],
